@@ -80,9 +80,9 @@ func (pConn *PFCPConn) handleSessionEstablishmentRequest(msg message.Message) (m
 
 	// pConn.ts.remote is only set once an association has been set up; without that check a
 	// Node ID that decodes to the empty string would match the unset association Node ID.
-	if pConn.ts.remote.IsZero() || strings.Compare(nodeID, pConn.nodeID.remote) != 0 {
+	if pConn.ts.remote.IsZero() || strings.Compare(nodeID, pConn.remoteNodeID()) != 0 {
 		logger.PfcpLog.Warnln("association not found for Establishment request",
-			"with nodeID:", nodeID, ", association NodeID:", pConn.nodeID.remote)
+			"with nodeID:", nodeID, ", association NodeID:", pConn.remoteNodeID())
 		return errProcessReply(ErrAssocNotFound, ie.CauseNoEstablishedPFCPAssociation)
 	}
 
